@@ -43,13 +43,21 @@ def highlevel(ctx, model, cov):
         for k, (sp, sub, mx) in enumerate(plan):
             db = os.path.join(work, f"c01-{os.getpid()}-{k}.db")
             out = common.RecStream()
-            # half of the terminals are CONFIGURED with another space/subspace and get the requested one per call
-            per_call = (k % 2 == 1)
+            # a third of the terminals are CONFIGURED with the requested space/subspace; a third are configured with another
+            # one and get the requested one per call; a third are configured with another one, USED once, and then
+            # re-configured on the live object (attribute assignment) — later requests must follow the new setting
+            mode = k % 3
+            per_call = (mode == 1)
             other_sp = [x for x in ("8bit", "32bit", "16bit") if x != sp][k % 2]
             t = tupimage.TupimageTerminal(out_command=out, out_display=common.RecStream(), in_response=tty_in, id_database=db, config="DEFAULT",
-                                          id_space=(other_sp if per_call else sp), id_subspace=("200:210" if per_call else sub),
+                                          id_space=(sp if mode == 0 else other_sp), id_subspace=(sub if mode == 0 else "200:210"),
                                           max_ids_per_subspace=mx, upload_method="direct", redetect_terminal=False)
             kw = {"id_space": sp, "id_subspace": sub} if per_call else {}
+            if mode == 2:
+                t.assign_id(imgs[0], cols=1, rows=1)
+                t.get_id_space(); t.get_subspace()
+                t.id_space = sp
+                t.id_subspace = sub
             ids = []
             for j in range(9):
                 n_before = len(out.writes)
